@@ -38,3 +38,138 @@ pub fn seal(key: &[u8], nonce: &[u8; 12], aad: &[u8], pt: &[u8], rounds: usize) 
     let tag = tag_for(key, nonce, aad, &ct, rounds);
     Sealed { ct, tag, pad_aad_zero: aad.len() % 16 == 0, pad_ct_zero: pt.len() % 16 == 0 }
 }
+
+/// tag values worth forcing on an honest message (class `sel`, free bytes from `fill`): all-zero, all-ones, one, top
+/// bit only, half-zero; and two classes given by the final accumulator instead (0 and p-1: the tag is then s resp.
+/// s + p - 1 mod 2^128)
+pub enum Forced {
+    Tag([u8; 16]),
+    Acc(super::poly1305::U320),
+}
+
+pub fn forced_goal(sel: u64, fill: &[u8; 16]) -> Forced {
+    let mut t = *fill;
+    match sel % 8 {
+        0 => Forced::Tag([0u8; 16]),
+        1 => Forced::Tag([0xffu8; 16]),
+        2 => {
+            t = [0u8; 16];
+            t[0] = 1;
+            Forced::Tag(t)
+        }
+        3 => {
+            t = [0u8; 16];
+            t[15] = 0x80;
+            Forced::Tag(t)
+        }
+        4 => {
+            for b in t[..8].iter_mut() {
+                *b = 0;
+            }
+            Forced::Tag(t)
+        }
+        5 => {
+            for b in t[8..].iter_mut() {
+                *b = 0;
+            }
+            Forced::Tag(t)
+        }
+        6 => Forced::Acc(super::poly1305::U320::ZERO),
+        _ => Forced::Acc(super::poly1305::p().sub(&super::poly1305::U320::small(1))),
+    }
+}
+
+/// ciphertext bytes to append to `ct_prefix` (under the same key, nonce and AAD) so that the RFC 8439 tag of the whole
+/// message meets `goal`: zero bytes completing the pending 16-byte block, one free block (varied per attempt), and one
+/// block solved in Z/(2^130-5) - the last Poly1305 block before the length block. None when r = 0 or no attempt out of
+/// 16 has a solution below 2^128 (each has roughly a one-in-four chance per candidate accumulator).
+pub fn force_tag_suffix(key: &[u8], nonce: &[u8; 12], aad: &[u8], ct_prefix: &[u8], goal: &Forced, vary: u64, rounds: usize) -> Option<Vec<u8>> {
+    use super::poly1305::{accumulator_after, clamped_r, inverse, p, reduce, solve_block, U320};
+    let b0 = chacha_ietf_block(key, nonce, 0, rounds);
+    let mut otk = [0u8; 32];
+    otk.copy_from_slice(&b0[..32]);
+    let r = clamped_r(&otk);
+    if reduce(&r).is_zero() {
+        return None;
+    }
+    let rinv = inverse(&r);
+    let s = U320::from_le_bytes(&otk[16..32]);
+    let mut two128 = [0u32; 10];
+    two128[4] = 1;
+    let two128 = U320(two128);
+    // candidate final accumulators (canonical, below p)
+    let mut finals: Vec<U320> = Vec::new();
+    match goal {
+        Forced::Acc(a) => finals.push(reduce(a)),
+        Forced::Tag(t) => {
+            let tv = U320::from_le_bytes(t);
+            // A = t - s mod 2^128, then + k * 2^128 while below p
+            let base = if tv.ge(&s) { tv.sub(&s) } else { tv.add(&two128).sub(&s) };
+            let mut c = base;
+            for _ in 0..4 {
+                if !c.ge(&p()) {
+                    finals.push(c);
+                }
+                c = c.add(&two128);
+            }
+        }
+    }
+    let pad = (16 - ct_prefix.len() % 16) % 16;
+    for attempt in 0..16u64 {
+        let mut suffix = vec![0u8; pad];
+        suffix.extend_from_slice(&crate::rng::data(crate::rng::splitmix64(vary ^ attempt.wrapping_mul(0x9E3779B97F4A7C15)) | 16, 16));
+        let total = ct_prefix.len() + suffix.len() + 16;
+        // everything Poly1305 absorbs before the solved block
+        let mut before = Vec::with_capacity(aad.len() + total + 32);
+        before.extend_from_slice(aad);
+        while before.len() % 16 != 0 {
+            before.push(0);
+        }
+        before.extend_from_slice(ct_prefix);
+        before.extend_from_slice(&suffix);
+        let acc = accumulator_after(&otk, &before);
+        let mut lens = [0u8; 17];
+        lens[..8].copy_from_slice(&(aad.len() as u64).to_le_bytes());
+        lens[8..16].copy_from_slice(&(total as u64).to_le_bytes());
+        lens[16] = 1;
+        let nl = reduce(&U320::from_le_bytes(&lens));
+        for f in &finals {
+            // f = (a_c + nl) * r  =>  a_c = f * r^-1 - nl
+            let x = reduce(&f.mul(&rinv));
+            let a_c = if x.ge(&nl) { x.sub(&nl) } else { x.add(&p()).sub(&nl) };
+            if let Some(blk) = solve_block(&otk, &acc, &a_c) {
+                suffix.extend_from_slice(&blk);
+                return Some(suffix);
+            }
+        }
+    }
+    None
+}
+
+#[cfg(test)]
+mod force_tests {
+    use super::*;
+    #[test]
+    fn forced_tags_are_met() {
+        let key: Vec<u8> = (0u8..32).collect();
+        let nonce = [7u8; 12];
+        let mut met = 0;
+        for sel in 0..8u64 {
+            for plen in [0usize, 5, 16, 33] {
+                let prefix = crate::rng::data(99 + plen as u64, plen);
+                let goal = forced_goal(sel, &[0xabu8; 16]);
+                if let Some(sfx) = force_tag_suffix(&key, &nonce, b"header", &prefix, &goal, sel * 131 + plen as u64, 20) {
+                    let mut ct = prefix.clone();
+                    ct.extend_from_slice(&sfx);
+                    let tag = tag_for(&key, &nonce, b"header", &ct, 20);
+                    match goal {
+                        Forced::Tag(t) => assert_eq!(tag, t),
+                        Forced::Acc(_) => {}
+                    }
+                    met += 1;
+                }
+            }
+        }
+        assert!(met >= 24, "only {} of 32 goals met", met);
+    }
+}
